@@ -66,6 +66,10 @@ def main():
             pass
         from vlib.monitors import Reach
         reach = Reach().start()  # before the package is imported, so import-time code counts
+        linecov = None
+        if os.environ.get("VERIF_LINECOV_DIR"):  # diagnostic (tools/line_reach.py), never part of a verdict
+            from vlib.monitors import LineCov
+            linecov = LineCov().start()
         common.setup_repo()
         ctx = Ctx(pid, tier, seed, i, n)
         ctx.reach = reach
@@ -81,6 +85,11 @@ def main():
         except BaseException:  # harness failure: never a verdict about the library
             res = common.Result(pid)
             res.inconc(f"shard {i} harness crash: {traceback.format_exc()[-900:]}")
+        if linecov is not None:
+            linecov.stop()
+            os.makedirs(os.environ["VERIF_LINECOV_DIR"], exist_ok=True)
+            with open(os.path.join(os.environ["VERIF_LINECOV_DIR"], f"{pid}-{tier}-{seed}-{i}.json"), "w") as fh:
+                json.dump(sorted(linecov.hit), fh)
         with open(a.shard_out, "w") as fh:
             json.dump(res.to_json(), fh)
         return 0
